@@ -407,7 +407,22 @@ wait:
 	st.Detail["max_vector_len"] = maxLen
 	st.Detail["largest_maxPayload_tried"] = maxM
 	st.Detail["goroutines"] = nw
-	c.sample("batcher", map[string]any{"packets": "[t9 t9 b3]", "maxPayload": "0..33", "meaning": "Send(3 packets) once per maxPayload; batches recorded by the transport"})
+	// two written-out evaluations (run again here, outside the counts)
+	for _, sm := range []struct {
+		specs []pkSpec
+		m     int
+	}{
+		{[]pkSpec{{9, false}, {9, false}, {3, true}}, 21},
+		{[]pkSpec{{4, false}, {4, true}, {4, false}, {0, false}}, 12},
+	} {
+		w := newBatchWorker()
+		pk := mkPackets(sm.specs)
+		w.rec.reset(len(pk) + 1)
+		eio.VerifC13SetMaxPayload(w.sock, int64(sm.m))
+		w.send(pk)
+		c.sample("batcher", map[string]any{"part": "batcher", "packets": describeSpecs(sm.specs), "maxPayload": sm.m,
+			"encoded_len_of_all": parser.EncodedPayloadsLen(pk...), "batches_handed_to_transport": describeBatches(w.rec.cuts, w.rec.flat)})
+	}
 	return st
 }
 
